@@ -205,7 +205,7 @@ fn run<T: Sc>(case: &C07Case) -> Check {
     if (0..s).any(|i| (0..i).any(|j| base.y[i] == base.y[j])) {
         out.class("duplicated-column");
     }
-    out.class(format!("S={s}"));
+    out.class(crate::gen::s_label(s));
     out.class(base.weight_class());
     out.class(base.flavour());
     for r in base.regime() {
